@@ -47,7 +47,7 @@ def entity_info(spec):
 
 def random_spec(rng, shapes=None, strategy=None, plugins=None):
     shapes = shapes or ['articles', 'articles', 'articles_excl', 'composite', 'strkey', 'aliased', 'joined', 'joined3',
-                        'single', 'm2m', 'comment']
+                        'single', 'm2m', 'comment', 'nvparent']
     shape = rng.choice(shapes)
     opts = {'strategy': strategy or rng.choice(['validity', 'validity', 'subquery'])}
     if rng.random() < 0.15:
@@ -87,6 +87,8 @@ def random_spec(rng, shapes=None, strategy=None, plugins=None):
         spec = envs.shape_single(opts, plugins=plugins)
     elif shape == 'm2m':
         spec = envs.shape_m2m(opts, plugins=plugins)
+    elif shape == 'nvparent':
+        spec = envs.shape_nvparent(opts, plugins=plugins)
     else:
         raise ValueError(shape)
     spec['shape'] = shape
